@@ -276,6 +276,10 @@ func checkC18(c *Ctx) error {
 		if err := writeTree(b, rt); err != nil {
 			return
 		}
+		// symbolic links for the start directories that end in one
+		os.MkdirAll(filepath.Join(b, "other", "x"), 0o755)
+		os.Symlink(filepath.Join("..", "other", "x"), filepath.Join(b, "crs", "lnk"))
+		os.Symlink(filepath.Join("..", "crs", "sub"), filepath.Join(b, "other", "lnk2"))
 		dir := filepath.Join(append([]string{b}, rc.Start...)...)
 		var r CLIResult
 		if rc.WithD {
@@ -310,7 +314,7 @@ func checkC18(c *Ctx) error {
 	c.Cov["traces_validated_against_impl"] = len(args) + len(roots) + len(bodies)
 	c.Cov["cli_executions"] = cli
 	c.Cov["exhaustive"] = c.Tier == "thorough"
-	c.Cov["rule"] = "argument strings assembled from 3 x 5 x 15 x 6 x 3 pieces (junk, digits of other lengths, chain offsets 0,1,7,255,256,300,65536,2^64, empty, negative, leading zeros, wrong case, extensions, junk); every string is resolved by the spec (Args!Resolve) and by the real generate (marker literal per file shows which file was read; decoy files exist for wrapped offsets 256->0 and 300->44), generate from stdin, update on a chain of 9 links (shows the offset used), and `regex format ARG` (exactly Args!FormatTarget is rewritten; a foreign extension is never bent into a rule file); " + fmt.Sprint(len(bodies)) + " file bodies assembled from 4 x 2 x 9 x 8 pieces (blank space, tabs, CR, form feed, empty lines before, between and after the lines, with and without final newline) given once as file argument and once as the same bytes on stdin; 182 root cases (7 layouts incl. nested roots, a root below another root's regex-assembly directory and below a directory named regex-assembly-old x 13 start directories x -d or cwd); non-trivial = accepted argument or argument with a chain part"
+	c.Cov["rule"] = "argument strings assembled from 3 x 5 x 15 x 6 x 3 pieces (junk, digits of other lengths, chain offsets 0,1,7,255,256,300,65536,2^64, empty, negative, leading zeros, wrong case, extensions, junk); every string is resolved by the spec (Args!Resolve) and by the real generate (marker literal per file shows which file was read; decoy files exist for wrapped offsets 256->0 and 300->44), generate from stdin, update on a chain of 9 links (shows the offset used), and `regex format ARG` (exactly Args!FormatTarget is rewritten; a foreign extension is never bent into a rule file); " + fmt.Sprint(len(bodies)) + " file bodies assembled from 4 x 2 x 9 x 8 pieces (blank space, tabs, CR, form feed, empty lines before, between and after the lines, with and without final newline) given once as file argument and once as the same bytes on stdin; 182 root cases (7 layouts incl. nested roots, a root below another root's regex-assembly directory and below a directory named regex-assembly-old x 13 start directories x -d or cwd, plus 2 start directories that end in a symbolic link, with -d); non-trivial = accepted argument or argument with a chain part"
 	c.Summary = fmt.Sprintf("args=%d roots=%d cli=%d", len(args), len(roots), cli)
 	return nil
 }
